@@ -572,6 +572,9 @@ pub fn run(ctx: &Ctx) -> Result<Run, String> {
     });
     let mut stats = stats;
     stats.merge(st2);
+    // the credential shown to the user is the one that signs – also by KEY: credentials with the same
+    // id and different keys (other instances on the thread; an entry replaced under a long-lived one)
+    stats.merge(super::inst::colliding_sweep("shared-state"));
     let n = cs.len() as u64;
     let okc = stats.outcomes.iter().filter(|(k, _)| k.contains(":ok:")).map(|(_, v)| *v).sum::<u64>();
     if okc == 0 {
@@ -591,6 +594,9 @@ pub fn run(ctx: &Ctx) -> Result<Run, String> {
 }
 
 pub fn replay(_ctx: &Ctx, case: &Value) -> Result<Vec<Finding>, String> {
+    if let Some(fs) = super::inst::colliding_replay(case, "shared-state") {
+        return Ok(fs);
+    }
     if let Some(p) = case.get("pair") {
         let p: Pair = serde_json::from_value(p.clone()).map_err(|e| format!("bad C04 pair: {e}"))?;
         return Ok(eval_pair(&p).0);
